@@ -117,6 +117,7 @@ def replay(body):
 def run(ctx):
     rng = ctx.rng
     ctx.check_theorems()
+    ctx.check_generated(['vaff'])
     exprs, meta = [], []
     for k in range(ctx.n(60, 600)):
         ref, L, t, centre, w = gen(rng)
